@@ -15,7 +15,7 @@ type c09Case struct {
 	Client bool   `json:"client"`
 	Peer   string `json:"peer"`  // silent | stall-header | stall-payload | flood-frames | flood-one-frame | never-reads | half-close | data-to-closeread
 	K      int    `json:"k"`     // bytes sent before stalling
-	Local  string `json:"local"` // idle | reader-blocked | half-read | closeread | writer-blocked
+	Local  string `json:"local"` // idle | reader-blocked | half-read | closeread | writer-blocked | writer-arrives | pinger-arrives
 	Op     string `json:"op"`    // close | closenow | none (data-to-closeread)
 }
 
@@ -138,6 +138,14 @@ func runC09Case(cc c09Case) (string, string) {
 		go c.CloseNow()
 		return "", ""
 	}
+	// a call with no deadline of its own that arrives while Close / CloseNow is already under way
+	// (Close is then stuck writing its Close frame to a peer that does not read)
+	switch cc.Local {
+	case "writer-arrives":
+		time.AfterFunc(200*time.Millisecond, func() { writeRet <- c.Write(context.Background(), websocket.MessageBinary, make([]byte, 100)) })
+	case "pinger-arrives":
+		time.AfterFunc(200*time.Millisecond, func() { writeRet <- c.Ping(context.Background()) })
+	}
 	opRet := make(chan error, 1)
 	t0 := time.Now()
 	go func() {
@@ -177,11 +185,11 @@ func runC09Case(cc c09Case) (string, string) {
 		case <-time.After(promptBound):
 			return "blocked-read-not-released", desc + ": Read still blocked after the connection was closed"
 		}
-	case "writer-blocked":
+	case "writer-blocked", "writer-arrives", "pinger-arrives":
 		select {
 		case <-writeRet:
 		case <-time.After(promptBound):
-			return "blocked-write-not-released", desc + ": Write still blocked after the connection was closed"
+			return "blocked-write-not-released", desc + ": Write / Ping still blocked after the connection was closed"
 		}
 	case "closeread":
 		select {
@@ -196,7 +204,7 @@ func runC09Case(cc c09Case) (string, string) {
 
 func runC09(ctx *runCtx) {
 	rep := ctx.rep
-	rep.Rule = "scripted adversary peers {silent, stall after k bytes of a header (k=1,2,6,10,13), stall after k payload bytes (k=0,1,100,5000), endless small data frames, one frame declaring 2^62 bytes fed forever, never reads (writes block), half-close, data message to a CloseRead connection} x local state at the time of the call {idle, reader blocked, message half read, CloseRead active, writer blocked} x {Close, CloseNow} x role; " +
+	rep.Rule = "scripted adversary peers {silent, stall after k bytes of a header (k=1,2,6,10,13), stall after k payload bytes (k=0,1,100,5000), endless small data frames, one frame declaring 2^62 bytes fed forever, never reads (writes block), half-close, data message to a CloseRead connection} x local state at the time of the call {idle, reader blocked, message half read, CloseRead active, writer blocked, a Write / Ping without deadline arriving 200 ms after the call began} x {Close, CloseNow} x role; " +
 		"wall clock: Close <= 12.5 s, CloseNow <= 1.5 s, blocked calls and the CloseRead context released <= 1.5 s after. distinct = scenario tuple"
 	if ctx.replay != "" {
 		var cc c09Case
@@ -222,6 +230,14 @@ func runC09(ctx *runCtx) {
 		for j, l := range locals {
 			if l == "writer-blocked" && p.p != "never-reads" {
 				continue
+			}
+			if p.p == "never-reads" && l == "idle" {
+				// also: a Write / Ping without a deadline arriving while the close is under way
+				for _, op := range []string{"close", "closenow"} {
+					for _, l2 := range []string{"writer-arrives", "pinger-arrives"} {
+						cases = append(cases, c09Case{Client: (i+j)%2 == 0, Peer: p.p, Local: l2, Op: op}, c09Case{Client: (i+j)%2 != 0, Peer: p.p, Local: l2, Op: op})
+					}
+				}
 			}
 			if p.p == "never-reads" && (l == "half-read") {
 				continue
